@@ -17,6 +17,10 @@ Decides:
  E equals value  once split_os_argument has seen `=` every result carries a value part (the empty one for `--name=`); a result without a
                 value part is built only where the input ended before any `=` (so `--name=` never takes the NEXT item as its value).
  N name lists    short()/long() and their method forms put the name into the list of its own kind; command names likewise (wiring table).
+ L conversion arms  parse_os_str special-cases exactly OsString and PathBuf; a lossy rendering exists only on the failure edge of to_str()
+                (never in a closure that could feed a value).
+ D context free  while the item list is built it is only appended to / measured / rolled back: the meaning of a word never depends on the items
+                produced for its neighbours (no last()/first_mut()/indexing in State::construct / disambiguate_short).
 Does not decide: that split_os_argument as a whole is a correct transducer for every byte string."""
 import re
 from core import *
